@@ -1,0 +1,85 @@
+//go:build verif
+// +build verif
+
+package joinserver
+
+import (
+	"github.com/brocaar/lorawan"
+	"github.com/brocaar/lorawan/backend"
+)
+
+// Client lemmas for /verif (tool: gov).  Never called by library code.
+
+func verifAssert(cond bool, label string) {}
+func verifAssume(cond bool)               {}
+
+// ---------------------------------------------------------------------------
+// C16: the session keys a join-server answer carries are the keys the requesting device derives:
+// the derivation selected by the OptNeg bit of the request being answered (JoinEUI-based with the
+// AppKey as the AppSKey root when set, NetID-based with the NwkKey when not), over the NetID, JoinEUI
+// and DevNonce / RJcount of that request and the configured JoinNonce.  Both lemmas run the real task
+// pipeline up to and including setSessionKeys; getSKey (under its own functional contract) is the
+// specification side.
+// ---------------------------------------------------------------------------
+
+func lemmaC16_join_keys(phy []byte, senderID, receiverID string, dl lorawan.DLSettings, dk DeviceKeys) {
+	pl := backend.JoinReqPayload{PHYPayload: backend.HEXBytes(phy), DLSettings: dl}
+	pl.SenderID = senderID
+	pl.ReceiverID = receiverID
+	ctx := context{joinReqPayload: pl, deviceKeys: dk}
+	if setJoinContext(&ctx) != nil {
+		return
+	}
+	if setJoinNonce(&ctx) != nil {
+		return
+	}
+	if setSessionKeys(&ctx) != nil {
+		return
+	}
+	appRoot := dk.NwkKey
+	if dl.OptNeg {
+		appRoot = dk.AppKey
+	}
+	k1, e1 := getSKey(dl.OptNeg, 0x01, dk.NwkKey, ctx.netID, ctx.joinEUI, ctx.joinNonce, ctx.devNonce)
+	k2, e2 := getSKey(dl.OptNeg, 0x02, appRoot, ctx.netID, ctx.joinEUI, ctx.joinNonce, ctx.devNonce)
+	k3, e3 := getSKey(dl.OptNeg, 0x03, dk.NwkKey, ctx.netID, ctx.joinEUI, ctx.joinNonce, ctx.devNonce)
+	k4, e4 := getSKey(dl.OptNeg, 0x04, dk.NwkKey, ctx.netID, ctx.joinEUI, ctx.joinNonce, ctx.devNonce)
+	verifAssert(e1 == nil && e2 == nil && e3 == nil && e4 == nil, "derivable")
+	verifAssert(ctx.fNwkSIntKey == k1, "fnwksintkey")
+	verifAssert(ctx.appSKey == k2, "appskey")
+	if dl.OptNeg {
+		verifAssert(ctx.sNwkSIntKey == k3, "snwksintkey")
+		verifAssert(ctx.nwkSEncKey == k4, "nwksenckey")
+	}
+}
+
+func lemmaC16_rejoin_keys(phy []byte, senderID, receiverID string, dl lorawan.DLSettings, dk DeviceKeys) {
+	pl := backend.RejoinReqPayload{PHYPayload: backend.HEXBytes(phy), DLSettings: dl}
+	pl.SenderID = senderID
+	pl.ReceiverID = receiverID
+	ctx := context{rejoinReqPayload: pl, deviceKeys: dk}
+	if setRejoinContext(&ctx) != nil {
+		return
+	}
+	if setJoinNonce(&ctx) != nil {
+		return
+	}
+	if setSessionKeys(&ctx) != nil {
+		return
+	}
+	appRoot := dk.NwkKey
+	if dl.OptNeg {
+		appRoot = dk.AppKey
+	}
+	k1, e1 := getSKey(dl.OptNeg, 0x01, dk.NwkKey, ctx.netID, ctx.joinEUI, ctx.joinNonce, ctx.devNonce)
+	k2, e2 := getSKey(dl.OptNeg, 0x02, appRoot, ctx.netID, ctx.joinEUI, ctx.joinNonce, ctx.devNonce)
+	k3, e3 := getSKey(dl.OptNeg, 0x03, dk.NwkKey, ctx.netID, ctx.joinEUI, ctx.joinNonce, ctx.devNonce)
+	k4, e4 := getSKey(dl.OptNeg, 0x04, dk.NwkKey, ctx.netID, ctx.joinEUI, ctx.joinNonce, ctx.devNonce)
+	verifAssert(e1 == nil && e2 == nil && e3 == nil && e4 == nil, "derivable")
+	verifAssert(ctx.fNwkSIntKey == k1, "fnwksintkey")
+	verifAssert(ctx.appSKey == k2, "appskey")
+	if dl.OptNeg {
+		verifAssert(ctx.sNwkSIntKey == k3, "snwksintkey")
+		verifAssert(ctx.nwkSEncKey == k4, "nwksenckey")
+	}
+}
